@@ -348,6 +348,8 @@ def cobs(o):
         return f"(Some (OFrame {cside(o['closed'])} {cv(o['init'])} {cser(o['rows'])}))"
     if t == "ser":
         return f"(Some (OSer {cser(o['rows'])}))"
+    if t == "rows":
+        return f"(Some (ORows {cser(o['rows'])}))"
     if t == "vals":
         return f"(Some (OVals {clist(cv(v) for v in o['vals'])}))"
     if t == "val":
